@@ -90,6 +90,9 @@ Ltac scases :=
 
 Ltac slist_facts :=
   repeat match goal with
+  | Es : ssort ?vs = ?h :: ?r, E : context [scount _ (?h :: ?r)] |- _ => rewrite <- Es in E
+  end;
+  repeat match goal with
   | H : smem ?a ?l = true |- _ => apply smem_In in H
   | H : smem ?a ?l = false |- _ =>
     let N := fresh "Hnotin" in
